@@ -162,3 +162,45 @@ Definition run (ops : list op) : list obs := run_from init ops.
 (* final state, for the theorems *)
 Definition exec (s : state) (ops : list op) : state :=
   fold_left (fun s o => fst (step s o)) ops s.
+
+(* ---- observers running while another goroutine changes the queue ----
+   Iterate (and String, which is built on it) run their callback inside ONE read-lock
+   section (withRLock); every modifying operation takes the write lock.  Hence an observer is
+   atomic: whatever the other goroutine does while the callback is in progress waits for the
+   lock and takes effect after the walk.  [IterateDuring pos cs]: an Iterate whose callback is
+   held up at element number [pos] while another goroutine issues the operations [cs] one
+   after the other.  The walk reports the list as it was when the Iterate began - whatever
+   [pos] - and the operations are then applied in order (the worker picks a task whenever it
+   can, as after any operation). *)
+Inductive xop :=
+| Plain (o : op)
+| IterateDuring (pos : N) (cs : list op).
+
+Record xobs := mkXObs {
+  x_obs : obs;                       (* the observation after the (last) operation *)
+  x_walk : list (option task);       (* what the overlapping Iterate reported (Plain: []) *)
+  x_rets : list (option task)        (* the tasks returned by the overlapping operations *)
+}.
+
+Fixpoint chain_run (s : state) (cs : list op) : state * list (option task) :=
+  match cs with
+  | [] => (s, [])
+  | o :: r => let (s', ret) := step s o in
+              let (s'', rs) := chain_run s' r in (s'', ret :: rs)
+  end.
+
+Definition xstep (s : state) (x : xop) : state * xobs :=
+  match x with
+  | Plain o => let (s', r) := step s o in (s', mkXObs (observe s' r) [] [])
+  | IterateDuring _ cs =>
+      let (s', rs) := chain_run s cs in
+      (s', mkXObs (observe s' None) (map Some (items s)) rs)
+  end.
+
+Fixpoint xrun_from (s : state) (xs : list xop) : list xobs :=
+  match xs with
+  | [] => []
+  | x :: r => let (s', ob) := xstep s x in ob :: xrun_from s' r
+  end.
+
+Definition xrun (xs : list xop) : list xobs := xrun_from init xs.
